@@ -586,18 +586,19 @@ class rmregbase64(X86Instruction):
 class RmWrite:
     """Mixin for instructions that modify their r/m operand in place.
 
-    The register inside a register r/m operand (RmReg8 .. RmReg64) is
-    declared as read only, which is right for instructions like cmp or
-    idiv, but not for neg, not, dec and the shifts: they write the register
-    too. Liveness analysis and the spill code of the register allocator
-    rely on this (a spilled register must be stored back after such an
-    instruction).
+    The register inside a register r/m operand (RmReg8 .. RmReg64, the xmm
+    register alternatives) is declared as read only, which is right for
+    instructions like cmp or idiv, but not for neg, not, dec, the shifts
+    and the 'op r/m, reg' forms of add, or, and, sub, xor, mov, movss and
+    movsd: they write the register too. Liveness analysis and the spill
+    code of the register allocator rely on this (a spilled register must be
+    stored back after such an instruction).
     """
 
     @property
     def defined_registers(self):
         registers = super().defined_registers
-        if isinstance(self.rm, (RmReg8, RmReg16, RmReg32, RmReg64)):
+        if hasattr(self.rm, "reg_rm"):
             registers.append(self.rm.reg_rm)
         return registers
 
@@ -777,7 +778,8 @@ def make_rm_reg64(mnemonic, opcode, read_op1=True, write_op1=True):
     reg = Operand("reg", Register64, read=True)
     syntax = Syntax([mnemonic, " ", rm, ",", " ", reg], priority=0)
     members = {"syntax": syntax, "rm": rm, "reg": reg, "opcode": opcode}
-    return type(mnemonic + "_ins", (rmregbase64,), members)
+    bases = (RmWrite, rmregbase64) if write_op1 else (rmregbase64,)
+    return type(mnemonic + "_ins", bases, members)
 
 
 def make_rm_reg32(mnemonic, opcode, read_op1=True, write_op1=True):
@@ -786,7 +788,8 @@ def make_rm_reg32(mnemonic, opcode, read_op1=True, write_op1=True):
     reg = Operand("reg", Register32, read=True)
     syntax = Syntax([mnemonic, " ", rm, ",", " ", reg], priority=0)
     members = {"syntax": syntax, "rm": rm, "reg": reg, "opcode": opcode}
-    return type(mnemonic + "_ins", (rmregbase32,), members)
+    bases = (RmWrite, rmregbase32) if write_op1 else (rmregbase32,)
+    return type(mnemonic + "_ins", bases, members)
 
 
 def make_rm_reg16(mnemonic, opcode, read_op1=True, write_op1=True):
@@ -795,7 +798,8 @@ def make_rm_reg16(mnemonic, opcode, read_op1=True, write_op1=True):
     reg = Operand("reg", Register16, read=True)
     syntax = Syntax([mnemonic, " ", rm, ",", " ", reg], priority=0)
     members = {"syntax": syntax, "rm": rm, "reg": reg, "opcode": opcode}
-    return type(mnemonic + "_ins", (rmregbase16,), members)
+    bases = (RmWrite, rmregbase16) if write_op1 else (rmregbase16,)
+    return type(mnemonic + "_ins", bases, members)
 
 
 def make_rm_reg8(mnemonic, opcode, read_op1=True, write_op1=True):
@@ -804,7 +808,8 @@ def make_rm_reg8(mnemonic, opcode, read_op1=True, write_op1=True):
     reg = Operand("reg", Register8, read=True)
     syntax = Syntax([mnemonic, " ", rm, ",", " ", reg], priority=0)
     members = {"syntax": syntax, "rm": rm, "reg": reg, "opcode": opcode}
-    return type(mnemonic + "_ins", (rmregbase64,), members)
+    bases = (RmWrite, rmregbase64) if write_op1 else (rmregbase64,)
+    return type(mnemonic + "_ins", bases, members)
 
 
 def make_reg_rm64(mnemonic, opcode, read_op1=True, write_op1=True):
